@@ -759,8 +759,7 @@ class Solver(object):
             # anymore.
             return self.dt
 
-        if self._prev_dt is not None and \
-           abs(self._prev_dt - self.dt) > self._epsilon:
+        if self._prev_dt is not None:
             # if the _prev_dt was set then we need to use it as the current dt
             # was set to print at an intermediate time.
             self.dt = self._prev_dt
